@@ -30,9 +30,91 @@ DIRS = sorted({os.path.dirname(p) for p in FILES if '/' in p} | {'a'})
 CWDS = ['a', 'a/b', 'a/b/c']
 STORES = ['xvc-path', 'xvc-metadata', 'content-digest', 'recheck-method', 'file-text-or-binary']
 
+# Adversarial names: siblings (directories AND files) whose NAME extends the name of a directory the command is
+# run in, at the root (`data` / `data2` `data-old` `data.bak` `datafile.txt`), nested (`proj/train` / `proj/train_aug`
+# `proj/train.csv`), at depth 2 (`data/raw` / `data/rawer` `data/raw.txt`), names that are prefixes of each other
+# (`da` < `data` < `data2`, `proj/tr` < `proj/train` < `proj/train_aug`) and a file name extending a file name
+# (`data/a.txt` / `data/a.txt2`).  A selection that compares path STRINGS instead of path COMPONENTS differs on these.
+# No glob metacharacters in names (known gap of the unchanged binary).  All contents are distinct (cache objects are
+# attributed to paths by digest).
+FILES_P = {
+    'datafile.txt': 'datafile\n',
+    'da/x.txt': 'da x\n' * 2,
+    'data/a.txt': 'data a\n' * 3, 'data/a.txt2': 'data a txt2\n' * 4, 'data/b.dat': 'data b dat\n' * 5,
+    'data/raw.txt': 'data raw.txt\n' * 6,
+    'data/raw/r.txt': 'data raw r\n' * 7, 'data/raw/r2.dat': 'data raw r2 dat\n' * 8,
+    'data/rawer/w.txt': 'data rawer w\n' * 9,
+    'data2/b.txt': 'data2 b\n' * 10, 'data2/raw/q.dat': 'data2 raw q dat\n' * 11,
+    'data-old/c.txt': 'data-old c\n' * 12,
+    'data.bak/d.dat': 'data.bak d dat\n' * 13,
+    'other/o.txt': 'other o\n' * 14,
+    'proj/train.csv': 'proj train.csv\n' * 15,
+    'proj/tr/v.txt': 'proj tr v\n' * 16,
+    'proj/train/t.txt': 'proj train t\n' * 17, 'proj/train/sub/s.dat': 'proj train sub s dat\n' * 18,
+    'proj/train_aug/u.txt': 'proj train_aug u\n' * 19, 'proj/train_aug/sub/s2.dat': 'proj train_aug sub s2 dat\n' * 20,
+}
+# the minimised layout of seeded/C18-1 (demo.sh): one directory and one sibling whose name extends it
+FILES_M = {'data/a.txt': 'a v1\n', 'data2/b.txt': 'b v1\n'}
+
+
+def dirs_of(files, extra=()):
+    d = set(extra)
+    for p in files:
+        while '/' in p:
+            p = p.rsplit('/', 1)[0]
+            d.add(p)
+    return sorted(d)
+
+
+LAYOUTS = {
+    # the original layout; the preparation of this layout is unchanged
+    'base': {'files': FILES, 'cwds': CWDS, 'track': ['a/', 'z/', 'r1.txt', 'r2.dat'], 'pretrack': ['a/f1.txt', 'z/'],
+             'always': ['a/b/g1.txt', 'a/b/c/h1.txt'], 'always_rm': ['a/f1.txt'], 'rmtree': ['a/b'],
+             'list_edit': ['a/b/g1.txt'], 'list_rm': ['a/b/c/h2.dat'],
+             'list_new': {'a/b/untracked.txt': 'u\n', 'a/b/c/untracked2.dat': 'u2\n'}},
+    'prefix': {'files': FILES_P, 'cwds': ['data', 'data/raw', 'proj/train', 'proj/tr', 'da', 'proj'],
+               'track': ['data/', 'data2/', 'data-old/', 'data.bak/', 'da/', 'other/', 'proj/', 'datafile.txt'],
+               'pretrack': ['data2/b.txt', 'proj/train_aug/'],
+               'always': [], 'always_rm': [], 'rmtree': ['data', 'data2', 'data-old', 'data.bak', 'da', 'proj', 'datafile.txt'],
+               'list_edit': ['data/a.txt', 'data2/b.txt', 'proj/train_aug/u.txt'], 'list_rm': ['data/raw/r2.dat', 'data2/raw/q.dat', 'proj/train.csv'],
+               'list_new': {'data/untracked.txt': 'u\n', 'data2/untracked2.dat': 'u2\n', 'data/rawer/untracked3.txt': 'u3\n',
+                            'proj/train_aug/untracked4.txt': 'u4\n'}},
+    'mini': {'files': FILES_M, 'cwds': ['data'], 'track': ['data/', 'data2/'], 'pretrack': ['data2/b.txt'],
+             'always': [], 'always_rm': [], 'rmtree': ['data', 'data2'],
+             'list_edit': ['data2/b.txt'], 'list_rm': [], 'list_new': {'data2/untracked.txt': 'u\n'}},
+}
+
+
+def layout_of(case):
+    """the layout of a case (default: the original one); `keep` restricts it to some of its files (shrinking)"""
+    name = case.get('layout', 'base')
+    L = dict(LAYOUTS[name], name=name)
+    if case.get('keep') is not None:
+        L['files'] = {p: c for p, c in L['files'].items() if p in case['keep']}
+        tops = []
+        for p in L['files']:
+            t = p.split('/')[0] + '/' if '/' in p else p
+            if t not in tops:
+                tops.append(t)
+        L['track'] = tops
+    L['dirs'] = dirs_of(L['files'], [case['cwd']] if case.get('cwd') else [])
+    return L
+
 
 def join(cwd, t):
     return f'{cwd}/{t}' if cwd else t
+
+
+def below(cwd, p):
+    """what C18's second sentence means by "under the current directory": the COMPONENTS of cwd are a proper prefix
+    of the components of p (Lean: `properAncestor`)"""
+    c, q = cwd.split('/'), os.path.normpath(p).split('/')
+    return len(q) > len(c) and q[:len(c)] == c
+
+
+def prefix_siblings(cwd, paths):
+    """paths that a string-prefix test would take for descendants of cwd although they are not"""
+    return sorted(p for p in paths if p.startswith(cwd) and p != cwd and not below(cwd, p))
 
 
 # ------------------------------------------------------------------------------------------------
@@ -120,44 +202,71 @@ def diff_abs(a, b, what=('records', 'cache', 'workspace', 'storage', 'duplicate_
 # ------------------------------------------------------------------------------------------------
 # prepared repositories: one preparation per command family, then byte-identical copies
 
-def prepare(chk, xvc, name, family, variant, storage_dir):
+def prepare(chk, xvc, name, family, variant, storage_dir, L=None):
     """returns a Sandbox in the prepared pre-state (the staging copy)"""
+    L = L or layout_of({})
+    files = L['files']
+    base = L['name'] == 'base'
     sb = Sandbox(chk.scratch, name, xvc)
     sb.git('init', '-q', '-b', 'main')
     sb.git('commit', '-q', '--allow-empty', '-m', 'root')
     rc, out, err = sb.x('init')
     if rc != 0:
         chk.fatal('xvc init failed', out + err)
-    for p, c in FILES.items():
+    for p, c in files.items():
         sb.write(p, c)
-    all_targets = ['a/', 'z/', 'r1.txt', 'r2.dat']
+    all_targets = list(L['track'])
+    exists = lambda t: os.path.lexists(sb.path(t.rstrip('/')))
     if family == 'track':
         if variant % 2:
-            sb.x('file', 'track', 'a/f1.txt', 'z/')        # some files already tracked
+            pre = [t for t in L['pretrack'] if exists(t)]
+            if pre:
+                sb.x('file', 'track', *pre)                    # some files already tracked
         return sb
     method = ['copy', 'symlink', 'hardlink'][variant % 3] if family in ('recheck', 'untrack', 'copy', 'move', 'list') else 'copy'
     sb.x('file', 'track', '--recheck-method', method, *all_targets)
     if family == 'carry-in':
-        for p in list(FILES)[variant % 2::2] + ['a/b/g1.txt', 'a/b/c/h1.txt']:
-            sb.write(p, FILES[p] + 'edited\n')
-    elif family == 'recheck':
-        if variant % 4 == 3:                                  # a whole directory is gone from the workspace
-            shutil.rmtree(sb.path('a/b'))
+        if base:
+            sel = list(files)[variant % 2::2] + L['always']
         else:
-            for p in list(FILES)[variant % 2::2] + ['a/b/g1.txt', 'a/b/c/h1.txt', 'a/f1.txt']:
+            # every file is changed (so that a file selected by mistake is carried in and the mistake is observable);
+            # one variant in three changes every other file only
+            sel = list(files) if variant % 3 != 1 else list(files)[::2]
+        for p in sel:
+            if p in files:
+                sb.write(p, files[p] + 'edited\n')
+    elif family == 'recheck':
+        if variant % 4 == 3:                                  # whole directories are gone from the workspace
+            for d in L['rmtree']:
+                if os.path.isdir(sb.path(d)) and not os.path.islink(sb.path(d)):
+                    shutil.rmtree(sb.path(d))
+                elif os.path.lexists(sb.path(d)):
+                    os.unlink(sb.path(d))
+        else:
+            if base:
+                sel = list(files)[variant % 2::2] + L['always'] + L['always_rm']
+            else:
+                # every file is missing (a file selected by mistake is restored); one variant in four: every other file
+                sel = list(files) if variant % 4 != 1 else list(files)[1::2]
+            for p in sel:
                 if os.path.lexists(sb.path(p)):
                     os.unlink(sb.path(p))
     elif family == 'list':
-        sb.write('a/b/g1.txt', FILES['a/b/g1.txt'] + 'edited\n')
-        os.unlink(sb.path('a/b/c/h2.dat'))
-        sb.write('a/b/untracked.txt', 'u\n')
-        sb.write('a/b/c/untracked2.dat', 'u2\n')
+        for p in L['list_edit']:
+            if p in files:
+                sb.write(p, files[p] + 'edited\n')
+        for p in L['list_rm']:
+            if os.path.lexists(sb.path(p)):
+                os.unlink(sb.path(p))
+        for p, c in L['list_new'].items():
+            if os.path.isdir(os.path.dirname(sb.path(p))):
+                sb.write(p, c)
     elif family in ('send', 'bring'):
         sb.x('storage', 'new', 'local', '--name', 'st', '--path', storage_dir)
         if family == 'bring':
             sb.x('file', 'send', '--to', 'st', *all_targets)
             sb.x('file', 'remove', '--from-cache', *all_targets)
-            for p in FILES:
+            for p in files:
                 if os.path.lexists(sb.path(p)):
                     os.unlink(sb.path(p))
     return sb
@@ -218,13 +327,14 @@ def cmd_argv(case, targets):
     raise ValueError(f)
 
 
-def under(cwd):
-    return [p for p in FILES if p.startswith(cwd + '/')]
+def under(cwd, files=FILES):
+    return [p for p in files if p.startswith(cwd + '/')]
 
 
-def gen_targets(rng, cwd, shape):
-    files = [p[len(cwd) + 1:] for p in under(cwd)]
-    subdirs = sorted({d[len(cwd) + 1:] for d in DIRS if d.startswith(cwd + '/')})
+def gen_targets(rng, cwd, shape, L=None):
+    L = L or layout_of({})
+    files = [p[len(cwd) + 1:] for p in under(cwd, L['files'])]
+    subdirs = sorted({d[len(cwd) + 1:] for d in L['dirs'] if d.startswith(cwd + '/')})
     if shape == 'file':
         return [rng.choice(files)]
     if shape == 'files':
@@ -237,10 +347,12 @@ def gen_targets(rng, cwd, shape):
         cands = ['*.txt', '*.dat', '*', '**/*.txt', '**/*.dat', '*1*']
         for d in subdirs:
             cands += [d + '/*', d + '/*.txt', d + '/**']
-        cands += [f[0] + '*' for f in files if '/' not in f]
+        # first letter of a file + `*`; not when it would also match a directory next to the file (a glob matching a
+        # recorded directory makes untrack panic from everywhere, see the report; the original layout has no such name)
+        cands += [f[0] + '*' for f in files if '/' not in f and not any(d[0] == f[0] for d in subdirs)]
         return [rng.choice(cands)]
     if shape == 'mixed':
-        return gen_targets(rng, cwd, 'file') + gen_targets(rng, cwd, 'glob')
+        return gen_targets(rng, cwd, 'file', L) + gen_targets(rng, cwd, 'glob', L)
     if shape == 'none':
         return []
     raise ValueError(shape)
@@ -248,16 +360,22 @@ def gen_targets(rng, cwd, shape):
 
 FAMILIES = ['track', 'carry-in', 'recheck', 'list', 'send', 'bring', 'remove', 'untrack', 'copy', 'move']
 SHAPES = ['file', 'files', 'dir/', 'dir', 'glob', 'mixed', 'none']
+# the families that accept "no targets" (remove and untrack require targets; copy/move take source and destination)
+NOTARGET_FAMILIES = ['track', 'carry-in', 'recheck', 'list', 'send', 'bring']
 
 
-def gen_case(rng, chk, family=None, cwd=None, shape=None):
+def gen_case(rng, chk, family=None, cwd=None, shape=None, layout='base', variant=None):
+    L = layout_of({'layout': layout})
     family = family or rng.choice(FAMILIES)
-    cwd = cwd or rng.choice(CWDS)
-    variant = rng.randrange(12)
+    cwd = cwd or rng.choice(L['cwds'])
+    L = layout_of({'layout': layout, 'cwd': cwd})
+    variant = rng.randrange(12) if variant is None else variant
     case = {'family': family, 'cwd': cwd, 'variant': variant, 'opts': []}
+    if layout != 'base':
+        case['layout'] = layout
     if family in ('copy', 'move'):
         # source and destination, both relative to the cwd; file -> file (directory destinations: K9b replay)
-        files = [p[len(cwd) + 1:] for p in under(cwd)]
+        files = [p[len(cwd) + 1:] for p in under(cwd, L['files'])]
         src = rng.choice(files)
         dst = rng.choice(['copied.txt', 'new/dest.txt', os.path.dirname(src) + '/renamed.' + src.split('.')[-1] if '/' in src else 'renamed.' + src.split('.')[-1]])
         if not dst.endswith('.' + src.split('.')[-1]):
@@ -265,11 +383,12 @@ def gen_case(rng, chk, family=None, cwd=None, shape=None):
         case['targets'] = [src, dst]
         case['shape'] = 'file->file'
     else:
-        shape = shape or rng.choice(SHAPES)
+        # on the adversarial layout the no-target shape (the second sentence of C18) gets a third of the random cases
+        shape = shape or (rng.choice(SHAPES) if layout == 'base' or rng.random() >= 0.25 else 'none')
         if family in ('untrack', 'remove') and shape == 'none':
             shape = 'dir/'                                   # these commands require targets
         case['shape'] = shape
-        case['targets'] = gen_targets(rng, cwd, shape)
+        case['targets'] = gen_targets(rng, cwd, shape, L)
         if family == 'recheck' and rng.random() < 0.5:
             case['opts'] = ['--recheck-method', rng.choice(['symlink', 'hardlink', 'copy'])]
         if family == 'track' and rng.random() < 0.3:
@@ -279,7 +398,18 @@ def gen_case(rng, chk, family=None, cwd=None, shape=None):
     chk.count('family:' + family)
     chk.count('depth:' + str(cwd.count('/') + 1))
     chk.count('shape:' + case['shape'])
+    count_case(chk, case)
     return case
+
+
+def count_case(chk, case):
+    """distribution of the adversarial-name class: is there, next to the cwd, a path whose name extends the cwd's"""
+    L = layout_of(case)
+    chk.count('layout:' + L['name'])
+    if prefix_siblings(case['cwd'], list(L['files']) + L['dirs']):
+        chk.count('prefix-sibling:' + case['family'])
+        if case['shape'] == 'none':
+            chk.count('prefix-sibling-notargets:' + case['family'])
 
 
 def root_targets(case):
@@ -295,7 +425,8 @@ def run_case(chk, xvc, name, case):
     base = os.path.join(chk.scratch, name)
     storage = os.path.join(base, 'storage')
     os.makedirs(base, exist_ok=True)
-    stage = prepare(chk, xvc, f'{name}/stage', case['family'], case['variant'], case.get('storage_path') or storage)
+    L = layout_of(case)
+    stage = prepare(chk, xvc, f'{name}/stage', case['family'], case['variant'], case.get('storage_path') or storage, L)
     storage0 = os.path.join(base, 'storage0')
     if os.path.isdir(storage):
         shutil.copytree(storage, storage0)
@@ -321,7 +452,8 @@ def run_case(chk, xvc, name, case):
             rc, out, err = sb.x(*argv, cwd=wd)
             ab = abstract(sb, storage if os.path.isdir(storage0) else None)
             ab['list'] = parse_list(out, cwd if form != 'A' else '') if case['family'] == 'list' else None
-            runs[form] = {'argv': ['xvc'] + argv, 'cwd': cd or '.', 'rc': rc, 'stdout': out[-1500:], 'stderr': err[-800:], 'abs': ab}
+            runs[form] = {'argv': ['xvc'] + argv, 'cwd': cd or '.', 'rc': rc, 'stdout': out[-1500:], 'stderr': err[-800:], 'abs': ab,
+                          'errors': sum(1 for l in (out + '\n' + err).splitlines() if l.startswith('[ERROR]'))}
             sb.cleanup()
     finally:
         stage.cleanup()
@@ -343,6 +475,18 @@ def run_case(chk, xvc, name, case):
         if case['family'] == 'list' and runs['A']['abs']['list'] != runs[other]['abs']['list']:
             la, lb = runs['A']['abs']['list'], runs[other]['abs']['list']
             msgs.append(f"list rows differ ({other}): only at root {[r for r in la if r not in lb][:4]}, only from {runs[other]['cwd']} {[r for r in lb if r not in la][:4]}")
+    # second sentence of C18, stated directly on the observations (independent of run A and of the model): without
+    # targets the command acts on nothing but files under the current directory -- component-wise (`below`)
+    if case['shape'] == 'none':
+        for other in ('B', 'C'):
+            if other not in runs or runs[other]['rc'] in (101, 124):
+                continue
+            post = runs[other]['abs']
+            acted = {os.path.normpath(p) for p in touched(pre, post, case['family'])}
+            outside = sorted(p for p in acted if not below(cwd, p) and not is_dirpath(p, pre, post, dirs=L['dirs']))
+            if outside:
+                msgs.append(f"`{' '.join(runs[other]['argv'])}` without targets in {runs[other]['cwd'] if other == 'B' else cwd} acted on paths that are "
+                            f"not under {cwd}/: {outside[:6]}" + (f' (+{len(outside) - 6} more)' if len(outside) > 6 else ''))
     return {'case': case, 'pre': pre, 'runs': runs, 'oracle': msgs, 'all_panicked': len(panicked) == len(runs)}
 
 
@@ -373,29 +517,31 @@ def touched(pre, post, family):
     return t
 
 
-def is_dirpath(p, *abss):
+def is_dirpath(p, *abss, dirs=DIRS):
     for ab in abss:
         r = ab['records'].get(p)
         if r and r['type'] == 'Directory':
             return True
         if p in ab['dirs']:
             return True
-    return p in DIRS
+    return p in dirs
 
 
 def model_select(model_bin, requests):
-    """requests: list of (cwd, targets or None, store paths, disk files, dirs) -> list of (sel_store, sel_disk)"""
+    """requests: list of (cwd, targets or None, store paths, disk files, dirs) -> list of (sel_store, sel_disk, (below_store, below_disk))"""
     lines, idx = [], []
     for cwd, targets, store, disk, dirs in requests:
         lines += ['reset', f'cwd {cwd or "."}']
         lines += [f'store {p}' for p in store] + [f'disk {p}' for p in disk] + [f'dir {p}' for p in dirs]
         lines += ['notargets'] if targets is None else [f'target {t}' for t in targets]
-        lines += ['sel store', 'sel disk']
+        lines += ['sel store', 'sel disk', 'sel below']
         idx.append(len(lines))
     rc, ans, err = run_lines(model_bin, [], lines)
-    if rc != 0 or len(ans) != len(lines):
+    if rc != 0 or len(ans) != len(lines) or any(';' not in ans[k - 1] for k in idx):
         return None
-    return [({x for x in ans[k - 2].split(',') if x}, {x for x in ans[k - 1].split(',') if x}) for k in idx]
+    st = lambda x: {y for y in x.split(',') if y}
+    # (selectStore, selectDisk, (specification `properAncestor` on the recorded paths, on the paths on disk))
+    return [(st(ans[k - 3]), st(ans[k - 2]), tuple(st(x) for x in ans[k - 1].split(';'))) for k in idx]
 
 
 def model_request(r):
@@ -412,18 +558,36 @@ def model_request(r):
     return (cwd, targets, sorted(pre['records']), sorted(disk), sorted(dirs))
 
 
-def tie_check(r, sel_store, sel_disk):
+def tie_no_targets(r, sel_store, sel_disk, spec):
+    """no targets: the model's selection vs the specification `properAncestor` evaluated by the driver vs the
+    component-wise test evaluated here, on the recorded paths and the paths on disk of this very case"""
+    cwd, store, disk, dirs = model_request(r)[0], *model_request(r)[2:]
+    msgs = []
+    want_s = {p for p in store if below(cwd, p)}
+    want_d = {p for p in set(disk) | set(dirs) if below(cwd, p)}
+    if not (sel_store == spec[0] == want_s):
+        msgs.append(f'no targets in {cwd}: model selectStore {sorted(sel_store)} / Lean properAncestor {sorted(spec[0])} / component-wise descendants {sorted(want_s)} differ')
+    if not (sel_disk == spec[1] == want_d):
+        msgs.append(f'no targets in {cwd}: model selectDisk {sorted(sel_disk)} / Lean properAncestor {sorted(spec[1])} / component-wise descendants {sorted(want_d)} differ')
+    return msgs
+
+
+def tie_check(r, sel_store, sel_disk, spec=None):
     """compare what the command touched in copy B (run from the subdirectory) with the model's selection"""
     case, pre = r['case'], r['pre']
     if 'B' not in r['runs']:
         return []
     post = r['runs']['B']['abs']
     fam = case['family']
-    files = lambda s: {p for p in s if not is_dirpath(p, pre, post)}
+    L = layout_of(case)
+    FILES = LAYOUTS[L['name']]['files']
+    files = lambda s: {p for p in s if not is_dirpath(p, pre, post, dirs=L['dirs'])}
     tch = files(touched(pre, post, fam))
     selF = {p for p in sel_store if pre['records'].get(p, {}).get('type') == 'File'}
     selD = {p for p in sel_disk if p in pre['workspace']}
     msgs = []
+    if case['shape'] == 'none' and spec is not None:
+        msgs += tie_no_targets(r, sel_store, sel_disk, spec)
 
     def eq(must, what):
         if tch != must:
@@ -462,6 +626,25 @@ def tie_check(r, sel_store, sel_disk):
     return msgs
 
 
+def sibling_actionable(r):
+    """no-target case: is there a path next to the cwd whose name extends the cwd's name and on which the command
+    WOULD act if it were selected (so that a selection by string prefix is observable in the compared abstraction)"""
+    case, pre = r['case'], r['pre']
+    L = layout_of(case)
+    fam, cwd = case['family'], case['cwd']
+    orig = LAYOUTS[L['name']]['files']
+    sib = [p for p in prefix_siblings(cwd, list(pre['records']) + list(pre['workspace'])) if not is_dirpath(p, pre, dirs=L['dirs'])]
+    if fam == 'carry-in':
+        return any(p in pre['workspace'] and p in orig and pre['workspace'][p].get('sha') != sha(orig[p].encode()) for p in sib)
+    if fam == 'recheck':
+        return any(p in pre['records'] and p not in pre['workspace'] for p in sib)
+    if fam == 'track':
+        return any(p in pre['workspace'] and pre['records'].get(p, {}).get('type') != 'File' for p in sib)
+    if fam in ('list', 'send', 'bring'):
+        return any(p in pre['records'] for p in sib)
+    return False
+
+
 def describe(r):
     return {'case': r['case'], 'runs': {k: {x: v[x] for x in ('argv', 'cwd', 'rc', 'stderr')} for k, v in r['runs'].items()},
             'oracle': r['oracle']}
@@ -475,7 +658,22 @@ def signature(case, msgs):
     return {'finding': 'cwd-dependence', 'family': case['family']}
 
 
+def _nt(layout, family, cwd, variant=0, opts=()):
+    return {'layout': layout, 'family': family, 'cwd': cwd, 'variant': variant, 'opts': list(opts), 'shape': 'none', 'targets': []}
+
+
 CORPUS = [
+    # seeded/C18-1 (minimised): no targets in `data`, the sibling `data2` extends its name and its file is changed
+    # (carry-in) / missing (recheck, bring) / not in the storage (send); then the full adversarial layout at the root,
+    # nested and with -C (every case runs cd and -C)
+    _nt('mini', 'carry-in', 'data'), _nt('mini', 'recheck', 'data'), _nt('mini', 'list', 'data'),
+    _nt('mini', 'send', 'data'), _nt('mini', 'bring', 'data'),
+    _nt('prefix', 'carry-in', 'data'), _nt('prefix', 'recheck', 'proj/train'), _nt('prefix', 'recheck', 'data/raw', 3),
+    _nt('prefix', 'list', 'proj/tr'), _nt('prefix', 'bring', 'da'),
+    # explicit targets whose names are prefixes of sibling names: directory without '/', file
+    {'layout': 'prefix', 'family': 'recheck', 'cwd': 'proj', 'variant': 0, 'opts': [], 'shape': 'dir', 'targets': ['train']},
+    {'layout': 'prefix', 'family': 'carry-in', 'cwd': 'data', 'variant': 0, 'opts': [], 'shape': 'dir', 'targets': ['raw']},
+    {'layout': 'prefix', 'family': 'recheck', 'cwd': 'data', 'variant': 0, 'opts': [], 'shape': 'file', 'targets': ['a.txt']},
     # F3 (fix: C18-F3.patch): store targets prefixed without '/'
     {'family': 'recheck', 'cwd': 'a', 'variant': 0, 'opts': [], 'shape': 'file', 'targets': ['f1.txt']},
     {'family': 'list', 'cwd': 'a/b', 'variant': 0, 'opts': [], 'shape': 'file', 'targets': ['g1.txt']},
@@ -525,6 +723,37 @@ def simplify(chk, xvc, r, failing):
             best = x
             if not c['opts']:
                 break
+    return shrink_layout(chk, xvc, best, failing)
+
+
+SHRINK_BUDGET = [36]      # runs of the implementation spent on shrinking layouts, per check run
+
+
+def shrink_layout(chk, xvc, r, failing):
+    """fewer files in the repository: whole top-level entries first, then single files (greedy; `keep` in the case)"""
+    case = r['case']
+    if case.get('root_targets') or case.get('storage_path'):
+        return r
+    keep = list(layout_of(case)['files'])
+    best = r
+    needed = [join(case['cwd'], t.rstrip('/')) for t in case['targets'] if '*' not in t]
+
+    def attempt(cand):
+        nonlocal best, keep
+        if SHRINK_BUDGET[0] <= 0 or not cand or cand == keep:
+            return False
+        if any(not any(p == t or p.startswith(t + '/') for p in cand) for t in needed[:1]):
+            return False                                       # the first (source) target must still name something
+        SHRINK_BUDGET[0] -= 1
+        x = run_case(chk, xvc, f'shr{SHRINK_BUDGET[0]}', dict(case, keep=cand))
+        if failing(x):
+            best, keep = x, cand
+            return True
+        return False
+    for top in sorted({p.split('/')[0] for p in keep}, key=lambda t: (case['cwd'].split('/')[0] == t, t)):
+        attempt([p for p in keep if p.split('/')[0] != top])
+    for p in list(keep):
+        attempt([q for q in keep if q != p])
     return best
 
 
@@ -542,8 +771,10 @@ def run(chk: Check):
         'records of directories are compared by path and type only; `.gitignore` files as sorted lines without xvc\'s time-stamped banner',
         'local storage is created with an absolute path (relative path: known finding)',
     ]
-    n = 90 if quick else 1000
+    n = 100 if quick else 1000
     cases = [dict(c) for c in CORPUS]
+    for c in cases:
+        count_case(chk, c)
     # systematic part: every family x every depth, shapes rotated; then random
     k = 0
     for fam in FAMILIES:
@@ -551,9 +782,26 @@ def run(chk: Check):
             shape = None if fam in ('copy', 'move') else SHAPES[k % len(SHAPES)]
             k += 1
             cases.append(gen_case(chk.rng, chk, fam, cwd, shape))
-    cases += [gen_case(chk.rng, chk) for _ in range(n)]
-    chk.extra['rule'] = (f'corpus ({len(CORPUS)} fixed cases: F3, directory-slash rule with an absent directory, K9b, track without targets / with -C) + {len(KNOWN_REPLAYS)} known-finding replays + '
-                         f'every command family (track, carry-in, recheck, list, send, bring, remove, untrack, copy, move) x every depth 1-3 with rotating target shapes + {n} random cases '
+    # adversarial names, systematic: (a) NO TARGETS -- every family that accepts that x every directory that has a
+    # sibling whose name extends its name, in the state where every file of the repository is actionable (variant 0:
+    # all changed / all missing / nothing in the storage / nothing in the cache); (b) explicit targets -- every family
+    # x two directories, shapes rotated
+    PL = LAYOUTS['prefix']
+    sib_cwds = [c for c in PL['cwds'] if prefix_siblings(c, list(PL['files']) + dirs_of(PL['files']))]
+    for fam in NOTARGET_FAMILIES:
+        for cwd in sib_cwds:
+            cases.append(gen_case(chk.rng, chk, fam, cwd, 'none', layout='prefix', variant=0))
+    for fam in FAMILIES:
+        for j in range(2):
+            shape = None if fam in ('copy', 'move') else [x for x in SHAPES if x != 'none'][k % (len(SHAPES) - 1)]
+            cwd = PL['cwds'][k % len(PL['cwds'])]
+            k += 1
+            cases.append(gen_case(chk.rng, chk, fam, cwd, shape, layout='prefix'))
+    cases += [gen_case(chk.rng, chk, layout='prefix' if i % 5 in (1, 3) else 'base') for i in range(n)]
+    chk.extra['rule'] = (f'corpus ({len(CORPUS)} fixed cases: seeded/C18-1 minimised (no targets next to a sibling whose name extends the name of the cwd), F3, directory-slash rule with an absent directory, K9b, track without targets / with -C) + {len(KNOWN_REPLAYS)} known-finding replays + '
+                         f'every command family (track, carry-in, recheck, list, send, bring, remove, untrack, copy, move) x every depth 1-3 with rotating target shapes + '
+                         f'adversarial-name layout (data / data2 / data-old / data.bak / datafile.txt / da, data/raw / data/rawer / data/raw.txt, proj/train / proj/train_aug / proj/train.csv / proj/tr): '
+                         f'no targets for every family that accepts it ({", ".join(NOTARGET_FAMILIES)}) x every cwd with such a sibling ({", ".join(sib_cwds)}) with every file actionable, and every family x 2 cwds with explicit targets + {n} random cases, 2 in 5 on the adversarial layout '
                          '(family, cwd of depth 1-3, shape in file / two files / dir/ / dir / glob / file+glob / no targets, option variants --recheck-method, --force, preparation variants incl. tracked '
                          'with copy/symlink/hardlink, edited files, deleted files, a whole directory deleted). Every case: one prepared repository, three byte-identical copies, the command from the root with '
                          'root-relative targets (A), from the subdirectory (B) and with -C (C); abstractions of A/B and A/C compared; model selection vs paths touched in B. '
@@ -572,6 +820,11 @@ def run(chk: Check):
             chk.nontrivial.add(hashlib.sha1(json.dumps(c, sort_keys=True).encode()).hexdigest())
         if r['all_panicked']:
             chk.count('panics-from-every-directory:' + c['family'])
+        if len({v['errors'] for v in r['runs'].values()}) > 1 and not r['oracle']:
+            # not part of the compared abstraction (messages are not effects); recorded to see whether it ever happens
+            chk.count('error-line-count-differs-between-directories:' + c['family'])
+        if c['shape'] == 'none' and sibling_actionable(r):
+            chk.count('prefix-sibling-notargets-actionable:' + c['family'])
         if r['oracle']:
             st['failing'] += 1
             first.setdefault(json.dumps(signature(c, r['oracle']), sort_keys=True), r)
@@ -590,9 +843,11 @@ def run(chk: Check):
             chk.disagreement('model_selection', {}, 'n/a', 'model driver failed', 'process failure')
         else:
             seen = set()
-            for r, (ss, sd) in zip(ok, sels):
+            for r, (ss, sd, spec) in zip(ok, sels):
                 ts['cases'] += 1
-                m = tie_check(r, ss, sd)
+                if r['case']['shape'] == 'none':
+                    ts['no_targets_vs_properAncestor'] = ts.get('no_targets_vs_properAncestor', 0) + 1
+                m = tie_check(r, ss, sd, spec)
                 if m:
                     ts['disagreements'] += 1
                     if r['case']['family'] not in seen:
